@@ -241,8 +241,10 @@ structure P9Inv (s : P9218) (opn : Nat → Bool) : Prop where
   cls : ∀ id c, s.prio id = some c → c < 16 ∧ id ∈ s.ring c
   buf : s.bufClass < 16
 
-theorem classOrder_complete (t : Bool) (c : Nat) (h : c < 16) : c ∈ classOrder t := by
-  cases t <;> (simp only [classOrder]; revert c; decide)
+theorem classOrder_complete (pref : Nat → Bool) (c : Nat) (h : c < 16) : c ∈ classOrder pref := by
+  simp only [classOrder, List.mem_flatMap, List.mem_range]
+  refine ⟨c / 2, by omega, ?_⟩
+  split <;> simp <;> omega
 
 theorem firstClass_none {e : Env} {qs : Nat → WQ} {ring : Nat → List Nat} {cs : List Nat}
     (h : firstClass e qs ring cs = none) : ∀ c ∈ cs, ∀ id ∈ ring c, sendable e (qs id) = false := by
@@ -297,12 +299,12 @@ theorem p9_step {s : P9218} {opn : Nat → Bool} {op : Op} (e : Env)
       · exact hi.buf
       · exact hok.2.2
     refine ⟨e, P9218.mk s.control (upd s.qs id ({} : WQ)) (upd s.ring c' (s.ring c' ++ [id])) (upd s.prio id (some c'))
-      s.toggle (if id = s.bufId then 0 else s.bufId) s.bufClass, .ok, ?_, ?_, ?_⟩
+      s.pref (if id = s.bufId then 0 else s.bufId) s.bufClass, .ok, ?_, ?_, ?_⟩
     · simp [Sched.step, P9218.openStream, hnone, c']
     · have h := StepSpec.other (strict := True) (e := e) (a := absP9 s) (op := .openS id p c) (by simp)
       have hq : (s.qs id).toList = [] := hwf.closed id hok.2.1
       have : absP9 (P9218.mk s.control (upd s.qs id ({} : WQ)) (upd s.ring c' (s.ring c' ++ [id])) (upd s.prio id (some c'))
-                 s.toggle (if id = s.bufId then 0 else s.bufId) s.bufClass)
+                 s.pref (if id = s.bufId then 0 else s.bufId) s.bufClass)
              = (absP9 s).applyOp (.openS id p c) := by
         simp only [absP9, Abs.applyOp]; exact absOf_clear_of_nil _ _ _ hq
       rw [this]; exact h
@@ -412,9 +414,9 @@ theorem p9_step {s : P9218} {opn : Nat → Bool} {op : Op} (e : Env)
       exact ⟨e, { s with control := c }, .frame f, rfl, StepSpec.pop (pop_ctl_spec e hsh), ⟨hi.opn, hi.cls, hi.buf⟩⟩
     | none =>
       have hctl := shift_none hsh
-      cases hfc : firstClass e s.qs s.ring (classOrder (!s.toggle)) with
+      cases hfc : firstClass e s.qs s.ring (classOrder s.pref) with
       | none =>
-        refine ⟨e, { s with toggle := !s.toggle }, .none, rfl, StepSpec.pop ?_, ⟨hi.opn, hi.cls, hi.buf⟩⟩
+        refine ⟨e, s, .none, rfl, StepSpec.pop ?_, ⟨hi.opn, hi.cls, hi.buf⟩⟩
         apply pop_none_spec (control := s.control) e hctl
         intro id
         cases hp : s.prio id with
@@ -429,7 +431,7 @@ theorem p9_step {s : P9218} {opn : Nat → Bool} {op : Op} (e : Env)
         obtain ⟨c, pre, id, post⟩ := t
         obtain ⟨_, hring, hsend, _⟩ := firstClass_some hfc
         obtain ⟨e', q', f, hcons, hps⟩ := pop_stream_spec (strict := True) (control := s.control) e hctl id hsend
-        refine ⟨e', { s with toggle := !s.toggle, qs := upd s.qs id q',
+        refine ⟨e', { s with pref := upd s.pref (c / 2) (c % 2 == 0), qs := upd s.qs id q',
                                          ring := upd s.ring c (if c % 2 = 1 then post ++ pre ++ [id] else id :: (post ++ pre)) },
                 .frame f, ?_, StepSpec.pop hps, ?_⟩
         · simp [hcons]
